@@ -4,6 +4,7 @@ package main
 // generated schema, compared with the model and checked for well-formedness in Coq.
 
 import (
+	"encoding/json"
 	"fmt"
 	"go/ast"
 	"go/parser"
@@ -184,6 +185,7 @@ func corpusCrud() []*modSpec {
 		mk("crud-composite-with-hidden-fields", "package models\n\ntype IdTrack int64\n\ntype Track struct {\n\tId IdTrack\n\tTitle string\n\tExtent Span\n\tW Window\n}\n",
 			modFile{"types.go", "package models\n\ntype Span struct {\n\tLo int\n\tHi int\n\tcache int\n}\n\ntype Window struct {\n\tFrom int `json:\"from\"`\n\tSkip int `json:\"-\"`\n\tTo int16\n}\n"}),
 		mk("crud-fields-that-are-not-columns-before-the-id", "package models\n\ntype IdUser int64\n\ntype User struct {\n\tdirty bool\n\tcache []int\n\tId IdUser\n\tName string\n\tAge int16\n}\n\ntype IdPost int64\n\ntype Post struct {\n\tTitle string\n\tloaded bool\n\tId IdPost\n\tIdUser IdUser\n}\n"),
+		mk("crud-json-column-with-arrays-of-several-lengths", "package models\n\ntype IdRoute int64\n\ntype Route struct {\n\tId IdRoute\n\tName string\n\tLeg Leg\n\tStops Stops\n}\n", modFile{"types.go", "package models\n\ntype Leg struct {\n\tFrom [2]int\n\tTo [3]int\n\tVia []int\n\tLabel string\n}\n\ntype Stops [][2]float64\n"}),
 		mk("crud-enum-with-unexported-constant", "package models\n\ntype IdTask int64\n\ntype Task struct {\n\tId IdTask\n\tTitle string\n\tState TaskState\n\tFlag TaskState `gomacro-sql-guard:\"#[TaskState.archived]\"`\n}\n", modFile{"types.go", "package models\n\ntype TaskState int\n\nconst (\n\tTodo TaskState = iota\n\tDoing\n\tarchived\n)\n"}),
 		withClass(mk("crud-single-column", "package models\n\ntype IdTag int64\n\ntype Tag struct {\n\tId IdTag\n\tName string\n}\n"), "update-single-column-row"),
 		withClass(mk("crud-id-only", "package models\n\ntype IdCounter int64\n\ntype Counter struct {\n\tId IdCounter\n}\n"), "table-with-only-an-id"),
@@ -512,6 +514,51 @@ func runC05(e *env) {
 		}
 	}
 	e.m.Extra["oracle_calls_of_generated_functions"] = crudOps
+
+	// the CHECK of a jsonb column calls a validator function of the script: the documents the generated code wrote are
+	// evaluated against the validators read back from the script, in Coq (the machinery of C04), and the validators are
+	// compared with their model
+	{
+		var vcases []string
+		var vinputs []interface{}
+		for i, r := range bins {
+			if r == nil || r.BuildErr != "" {
+				continue
+			}
+			o, spec := obs[i], specs[i]
+			if o.Gen["sql"].Outcome != "ok" {
+				continue
+			}
+			var docs []string
+			for _, rec := range r.Records {
+				if rec.Kind != "jsonb-doc" {
+					continue
+				}
+				if j, err := coqJSON(json.RawMessage(rec.JSON)); err == nil {
+					docs = append(docs, fmt.Sprintf("(%s, %s, %s)", coqStr(rec.Type), coqStr(rec.Msg), j))
+				}
+			}
+			if len(docs) == 0 {
+				continue
+			}
+			ps := readValidators(o.Gen["sql"].Text)
+			if len(ps.Unparsed) > 0 {
+				continue // reported by C04
+			}
+			e.m.count("modules_with_jsonb_documents")
+			e.m.Evaluations += len(docs)
+			vcases = append(vcases, fmt.Sprintf("{| c4_prog := %s;\n c4_enums := %s;\n c4_ana := %s;\n c4_funs := %s;\n c4_checks := %s;\n c4_docs := %s |}",
+				o.Facts, o.Enums, o.Ana, coqListNL(ps.Funs), coqListNL(ps.Checks), coqListNL(docs)))
+			vinputs = append(vinputs, map[string]interface{}{"module": spec, "script": o.Gen["sql"].Text, "class": spec.Class, "stage": "jsonb CHECK constraints of the inserted rows"})
+			if len(vcases) == 2 {
+				e.writeCases2(fmt.Sprintf("cases_C05v_%d", len(e.m.CaseFiles)), anaHeader+"From GM Require Import Sem.GoJson Sem.PgSem Model.SqlJson Corr.Check_C04.\n", "mismatches", "prop_failures", vcases, vinputs)
+				vcases, vinputs = nil, nil
+			}
+		}
+		if len(vcases) > 0 {
+			e.writeCases2(fmt.Sprintf("cases_C05v_%d", len(e.m.CaseFiles)), anaHeader+"From GM Require Import Sem.GoJson Sem.PgSem Model.SqlJson Corr.Check_C04.\n", "mismatches", "prop_failures", vcases, vinputs)
+		}
+	}
 
 	var cases []string
 	var inputs []interface{}
